@@ -21,6 +21,10 @@ randomness is the byte tape the real `WrapConn` consumed, time is explicit.  Hex
 * `acc <F> <startNs> <tape> <blob> <hour> <nowNs>` → `ok <hour echoed into MAC_S> <response ‖ seed frame> <response len>`
   | `fail <class>` | `need`   (`serverAccept`: one connection delivering `blob` in one read)
 
+* `blob <nodeid20> <idpub32> <repr32> <pad> <hour>` → `ok <X' ‖ P_C ‖ M_C ‖ MAC_C>` (a client handshake around
+  an arbitrary representative — what anyone who knows the bridge line can compute; used for the
+  low-order / all-zero representative probes)
+
 classes: `invalid` `replay` `ntor` (handshake), `timeout`, `eof`; `fail tape` = tape too short,
 `fail fuel` = `Intn` rejection loop exhausted (never).
 -/
@@ -153,6 +157,11 @@ def step (st : St) : List String → St × String
           (st, "ok " ++ toString ch ++ " " ++ hex w ++ " " ++ toString (w.length - Consts.Obfs4.inlineSeedFrameLength))
         | .accepted _ none => (st, "fail state")
     | _, _, _, _, _, _ => (st, "bad-op")
+  | ["blob", nodeid, idpub, repr, pad, hour] =>
+    match unhexN? Consts.Ntor.nodeIDLength nodeid, unhexN? Consts.Ntor.publicKeyLength idpub,
+          unhexN? Consts.Ntor.representativeLength repr, unhex? pad, hour.toInt? with
+    | some nid, some pk, some r, some pd, some h => (st, "ok " ++ hex (clientBlob Prims.real pk nid r pd h))
+    | _, _, _, _, _ => (st, "bad-op")
   | _ => (st, "bad-op")
 
 def run : IO Unit := lineLoop step {}
